@@ -33,7 +33,7 @@ EXTENDS Encode
 CONSTANT OpenParse   \* TRUE: (o1) is open as described; FALSE: unused code with a syntax error MUST fail the run
                      \* (what DESIGN Appendix B records for the pinned binary)
 
-VARIABLES cfg,             \* the configuration of this run (never changes)
+VARIABLES cfg,             \* the configuration of this run (fixed by Configure, then never changes)
           phase,           \* the phase about to run, "Done" when the process has exited
           exit,            \* exit status, -1 while running
           stdout,          \* bytes delivered to standard output
